@@ -1,5 +1,6 @@
 import SimilarVerif.Props.C15
 import SimilarVerif.Lemmas.HeadlineGlue
+import SimilarVerif.Lemmas.CapturePatienceChain
 /-! # C15 — headline -/
 namespace SimilarVerif.Headline
 open SimilarVerif Spec PatienceT
@@ -20,15 +21,24 @@ relative order on both sides
   [(a) raw callback stream: the call returns a valid script `raw`, and there is a chain of `L` pairs of positions in
        the two unique lists whose items are equal and reported Equal at exactly that pair of item positions;
    (b) captured diff (`capture_diff` with Patience, both settings of `repair`): it returns a valid script whose Equal
-       segments hold at least `L` items];
+       segments hold at least `L` items; and if the element tests are consistent across the two sides
+       [`CrossConsistent`: two new items equal to the same old item are equal to each other — true for the
+       environment of any two sequences, `CaptureChain.crossConsistent_of_eqPattern`], the chain form of (a) holds
+       for the captured diff too: a chain of `L` pairs of positions in the two unique lists whose items are equal
+       and reported Equal by the captured diff at exactly that pair of item positions];
 (c) such anchored items are matched to their unique counterpart, never to another occurrence [in the captured diff
     every item of an Equal op is paired with an equal item, and if `j'` is the only new position holding an item
     equal to `old[co+t]`, it is paired with exactly `j'`; same for the raw stream, being a valid script]."
 
 Hypothesis: `RangesInBounds` (incl. the same-side tests `unique` performs).
-Not covered by this theorem: for the CAPTURED diff the size clause is the count form (b) — "at least `L` equal items"
-— not the chain form of (a) (which unique items survive the clean-up's shifting of Equal segments is not tracked;
-the clean-up and `Replace` keep the number of equal items). -/
+Why the chain survives the capture pipeline: the clean-up only slides Inserts over equal items (Deletes never
+slide), swaps / merges Deletes and Inserts, and `Replace` coalesces — the SET of old positions lying in Equal ops is
+unchanged (`CaptureChain.capture_oCov_iff`, any algorithm); an old position still reported Equal is paired with an
+equal new item, and for an item that `unique` returned on the new side that can only be its one occurrence.
+Not covered by this theorem: the chain form of (b) WITHOUT `CrossConsistent` — it is false for an abstract
+environment whose three element tests contradict each other (`CaptureChain.captured_chain_needs_consistency`:
+`new[0] == old[0]`, `new[1] == old[0]`, `new[0] != new[1]`; the clean-up slides an Insert over the anchor and the
+old item ends up paired with an occurrence `unique` did not return); no two real sequences behave like that. -/
 theorem C15_statement (E : Env) (repair : Bool) (os oe ns ne : Nat) (w : World)
     (hr : RangesInBounds E os oe ns ne) (hclk : w.clock = none) :
     ∃ (uo un : List Nat), unique E.oo os oe = some uo ∧ unique E.nn ns ne = some un ∧
@@ -43,6 +53,11 @@ theorem C15_statement (E : Env) (repair : Bool) (os oe ns ne : Nat) (w : World)
       (∃ (ops : List Op) (w' : World), captureDiff .patience E repair os oe ns ne w = .ok (ops, w') ∧
         Walk (eqB E) os ns ops oe ne ∧
         lcsLen (eqB (E.sub uo.toArray un.toArray)) uo.length un.length 0 0 ≤ nEq ops ∧
+        (CaptureChain.CrossConsistent E os oe ns ne →
+          ∃ pairs : List (Nat × Nat),
+            pairs.length = lcsLen (eqB (E.sub uo.toArray un.toArray)) uo.length un.length 0 0 ∧
+            Chain pairs ∧
+            ∀ x ∈ pairs, ∃ a b, uo[x.1]? = some a ∧ un[x.2]? = some b ∧ eqB E a b = true ∧ covered ops a b) ∧
         -- (c)
         ∀ co cn len t, Op.equal co cn len ∈ ops → t < len →
           eqB E (co + t) (cn + t) = true ∧
@@ -55,7 +70,13 @@ theorem C15_statement (E : Env) (repair : Bool) (os oe ns ne : Nat) (w : World)
   rw [h1] at g1; rw [h2] at g2
   cases g1; cases g2
   refine ⟨uo, un, h1, h2, ⟨r, w1, raw, pairs, by simpa [rawTrace, diffWith] using hp, h3, h4, h5, h6, h7⟩,
-    ops, w', hc, g3, g4, ?_⟩
+    ops, w', hc, g3, g4, ?_, ?_⟩
+  · intro hcons
+    obtain ⟨uo', un', prs, k1, k2, -, k4, k5, k6⟩ :=
+      CaptureChain.captured_patience_chain E repair os oe ns ne w ops w' hr.old_le hr.new_le hr.cross hclk hcons hc
+    rw [h1] at k1; rw [h2] at k2
+    cases k1; cases k2
+    exact ⟨prs, k4, k5, k6⟩
   intro co cn len t hm ht
   exact ⟨C15.equal_segments_pair_equal_items _ ops _ _ _ _ g3 co cn len hm t ht,
     fun j' hu => C15.anchor_matched_to_counterpart _ ops _ _ _ _ g3 co cn len t hm ht j' hu⟩
@@ -76,5 +97,16 @@ example : lcsLen (eqB ((Env.ofSeqs #[7,1,8,2] #[1,9,2,7]).sub #[0,1,2,3] #[0,1,2
 
 example : (captureDiff .patience (Env.ofSeqs #[7,1,8,2] #[1,9,2,7]) false 0 4 0 4 {}).map (·.1) =
     .ok [.delete 0 1 0, .equal 1 0 1, .replace 2 1 1 1, .equal 3 2 1, .insert 4 3 1] := by rfl
+
+/-- the environment of two sequences is consistent across the sides -/
+example : CaptureChain.CrossConsistent (Env.ofSeqs #[7,1,8,2] #[1,9,2,7]) 0 4 0 4 :=
+  CaptureChain.crossConsistent_of_eqPattern
+    (IdentP.eqPattern_ofSeqs #[7,1,8,2] #[1,9,2,7] 0 0 0 4 0 4 (by decide) (by decide) (by decide) (by decide))
+
+/-- the chain of the captured diff above: unique-list positions `(1,0)`, `(3,2)` = items `1`, `2` -/
+example : Chain [(1,0),(3,2)] ∧
+    covered [.delete 0 1 0, .equal 1 0 1, .replace 2 1 1 1, .equal 3 2 1, .insert 4 3 1] 1 0 ∧
+    covered [.delete 0 1 0, .equal 1 0 1, .replace 2 1 1 1, .equal 3 2 1, .insert 4 3 1] 3 2 :=
+  ⟨by simp [Chain], ⟨1, 0, 1, by simp, by omega, by omega, by omega⟩, ⟨3, 2, 1, by simp, by omega, by omega, by omega⟩⟩
 
 end SimilarVerif.Headline
